@@ -80,7 +80,7 @@ REQUIRED_BUCKETS = [f"row/{i}/{m}" for i, m in ROWS] + [
     "hist/truncated", "hist/not-truncated", "hist/m=1", "hist/default-bound", "hist/bad-bound", "net/3d", "net/rtree-false",
     "net/by-shape", "net/old-place", "net/add-from-refused", "lan/3d", "lan/3d-move-raises", "cyc/replace", "cyc/length-change",
     "mut/trajectory-same-object-reassigned", "hist/bound-lowered", "mut/held-trajectory-translate", "mut/held-trajectory-append",
-    "mut/member-lanelet-translate", "mut/member-lanelet-convert2d", "net/stale-entry-survives-rebuild"]
+    "mut/member-lanelet-translate", "mut/member-lanelet-convert2d", "net/stale-entry-survives-rebuild", "hist/moved"]
 
 TOL = 1e-9
 
@@ -178,6 +178,40 @@ def c_any(x):
 def res(r, conv=lambda v: v):
     """common.call result -> comparable value."""
     return {"err": r[1]} if r[0] == "err" else conv(r[1])
+
+
+def move_cstate(cs, t, a):
+    """The canonical state `cs` (c_state) after translate_rotate(t, a), by plain arithmetic: first translate, then rotate about the
+    origin; the stored orientation turns by a."""
+    if cs is None:
+        return None
+    at = dict(cs[2])
+    x, y = at["position"][0] + t[0], at["position"][1] + t[1]
+    at["position"] = [math.cos(a) * x - math.sin(a) * y, math.sin(a) * x + math.cos(a) * y]
+    if "orientation" in at:
+        at["orientation"] = at["orientation"] + a
+    return [cs[0], cs[1], at]
+
+
+def same_states(a, b):
+    """Lists of canonical states; floats to TOL, orientations modulo 2 pi."""
+    if len(a) != len(b):
+        return False
+    for x, y in zip(a, b):
+        if x is None or y is None:
+            if x != y:
+                return False
+            continue
+        if x[:2] != y[:2] or x[2].keys() != y[2].keys():
+            return False
+        for k in x[2]:
+            if k == "orientation":
+                d = (x[2][k] - y[2][k] + math.pi) % (2 * math.pi) - math.pi
+                if abs(d) > TOL:
+                    return False
+            elif not same(x[2][k], y[2][k]):
+                return False
+    return True
 
 
 # ------------------------------------------------------------------------------------------------ whom to blame
@@ -609,6 +643,7 @@ def run_obs(ctx, case, model=True):
     last_mut = "construction"
     shape_obs = copy.deepcopy(obs.obstacle_shape)
     taint = {"occ": None}     # the held-trajectory mutator applied since the occupancy cache was last dropped
+    motions = {}              # version -> (translation, angle) of the obstacle / scenario level translate_rotate calls
 
     def oracle(kind, t, got, what, idx):
         item = "state" if kind == "q_state" else ("initialOccupancy" if (kind == "q_occ" and (not dynamic or t == obs.initial_state.time_step))
@@ -664,11 +699,11 @@ def run_obs(ctx, case, model=True):
                     ctx.fail("C11/update_initial_state/history-lists-differ-in-length",
                              f"history lists have lengths {[len(got[x]) for x in 'hscp']} after {last_mut}", case)
                 want = {"h": exp_hist, "s": exp_sig, "c": exp_cen, "p": exp_shp}
-                if not same(got, want):
+                if not (same_states(got["h"], want["h"]) and all(same(got[x], want[x]) for x in "scp")):
                     ctx.fail("C11/update_initial_state/history-not-the-most-recent-states",
                              f"history after {len(all_prev)} updates is {json.dumps(got['h'])[:200]}; the most recent previous initial states "
-                             f"are {json.dumps(want['h'])[:200]}", case)
-                if len(bounds) == 1 and not same(got["h"], all_prev[-next(iter(bounds)):]):
+                             f"(each moved by the translate_rotate calls since it was replaced) are {json.dumps(want['h'])[:200]}", case)
+                if len(bounds) == 1 and not same_states(got["h"], all_prev[-next(iter(bounds)):]):
                     ctx.fail("C11/update_initial_state/history-not-last-m",
                              f"history is not the last {next(iter(bounds))} of the {len(all_prev)} previous initial states", case)
                 if all_prev:
@@ -685,6 +720,13 @@ def run_obs(ctx, case, model=True):
             rows.mutate("initialOccupancy", "obsTranslateRotate")
             if isinstance(p, TrajectoryPrediction):
                 rows.mutate("occupancySet", "obsTranslateRotate")
+            motions[v] = (np.array(op[1], dtype=float), op[2])
+            if dynamic and r[0] == "ok":
+                # the recorded states are world-frame states: they move with the obstacle (independent arithmetic)
+                exp_hist = [move_cstate(x, op[1], op[2]) for x in exp_hist]
+                all_prev = [move_cstate(x, op[1], op[2]) for x in all_prev]
+                if exp_hist:
+                    ctx.tag("hist/moved")
             m_ops.append(["tr", v])
         elif k == "set_init":
             def f():
@@ -852,8 +894,14 @@ def run_obs(ctx, case, model=True):
             return None
         return a
 
+    def moved(base, moves):
+        st = copy.deepcopy(snaps[base]["init"])
+        for w in moves:
+            st = st.translate_rotate(*motions[w])
+        return st
+
     def mat_hist(a):
-        return {"h": [c_state(snaps[x]["init"]) for x in a["h"]], "s": [c_signal(b_signal(x)) for x in a["s"]],
+        return {"h": [c_state(moved(b, ms)) for b, ms in a["h"]], "s": [c_signal(b_signal(x)) for x in a["s"]],
                 "c": [plain(b_ids(x)) for x in a["c"]], "p": [plain(b_ids(x)) for x in a["p"]]}
 
     model_out = []
